@@ -314,16 +314,18 @@ func verifH_ReadCli() {
 			// nothing more was sent: the terminal result is the status of the close frame
 			verifAssert(err == finalErr, "C02.cli-terminal-result-is-the-close-status")
 		}
+		twoResponses := false
 		if !st.isServerStream && ok && !bad && k == 0 {
 			_, _, ok2, _ := vRefNext(script, next)
 			if ok2 {
+				twoResponses = true
 				verifCover("second-response")
 				verifAssert(status.Code(err) == codes.Internal, "C16.second-response-is-internal-error")
 			}
 		}
 		err2 := vRecvCli(st, &wrapperspb.BytesValue{}, false)
 		verifAssert(err2 != nil, "C01+C16.cli-no-message-after-an-error")
-		if bad && q.ended == 0 {
+		if (bad || twoResponses) && q.ended == 0 {
 			// the caller gives up on an RPC whose peer violated the framing: the peer must be told
 			// (a cancel frame), otherwise it keeps the stream and its handler for ever
 			verifDrain()
@@ -334,6 +336,10 @@ func verifH_ReadCli() {
 				}
 			}
 			verifAssert(ncancel == 1, "C07+C09+C14.protocol-error-cancels-the-rpc-at-the-peer")
+			// ... and nothing of it stays on this end either
+			_, still := c.streams[5]
+			verifAssert(!still && st.done.Load() != nil, "C14+C16.rpc-abandoned-over-a-protocol-error-leaves-the-table")
+			verifAssert(verifLiveGoroutines() == 0, "C14.rpc-abandoned-over-a-protocol-error-leaves-no-goroutine")
 		}
 		break
 	}
